@@ -12,6 +12,9 @@ type Config struct {
 	RootKey int          `json:"root_key"` // pool key of the harness root CA
 	Frag    int          `json:"frag"`     // network reads return 1..frag bytes (0 = whole)
 	NetSeed uint64       `json:"net_seed"`
+	// Hammer is the iteration count of the concurrent-verifier side check
+	// (0 = none); replays multiply it
+	Hammer int `json:"hammer,omitempty"`
 }
 
 // Action is one macro-step.
@@ -32,6 +35,10 @@ type Action struct {
 	Pos    int    `json:"pos,omitempty"`
 	V      int    `json:"v,omitempty"`
 	Ms     int    `json:"ms,omitempty"`
+	// URL (start): how C2 is spelled: "" https://..., "upper" HTTPS://...,
+	// "mixed" Https://..., "redir" http://... on a plain-HTTP hop that answers
+	// 302 with the https URL
+	URL string `json:"url,omitempty"`
 	// HoldOutput (start): the call's Shell.Output parks until a release action
 	HoldOutput bool `json:"hold_output,omitempty"`
 }
@@ -45,6 +52,10 @@ func (a Action) String() string {
 func genCase(rng *simkit.RNG) (Config, []Action) {
 	var cfg Config
 	cfg.NetSeed = rng.Uint64()
+	if rng.Chance(1, 4) {
+		// the side check costs about as much as two histories
+		cfg.Hammer = 300
+	}
 	cfg.Frag = []int{0, 0, 0, 0, 1000, 100, 7}[rng.Intn(7)]
 	cfg.RootKey = rng.Intn(poolSize)
 	nsrv := rng.Range(4, 10)
@@ -193,6 +204,7 @@ func genCase(rng *simkit.RNG) (Config, []Action) {
 					a.V = rng.Intn(2)
 				}
 			}
+			a.URL = []string{"", "", "", "", "", "", "upper", "upper", "mixed", "redir", "redir"}[rng.Intn(11)]
 			if holds && rng.Chance(1, 2) {
 				a.HoldOutput = true
 				held = append(held, started)
